@@ -127,6 +127,7 @@ type (
 		SignedAccumulator *SignedAccumulator
 		Events            []*Event
 		product           *big.Int
+		productFrom       uint64 // index of the first event included in product
 	}
 
 	// Hash represents a SHA256 hash and has marshaling methods to/from JSON.
@@ -307,11 +308,15 @@ func (update *Update) Verify(pk *gabikeys.PublicKey) (*Accumulator, error) {
 	return acc, NewEventList(update.Events...).Verify(acc)
 }
 
+// Product returns the product of the revocation attributes of all events with index from and
+// higher. The result is cached; the cache is only valid for the same starting index, since one
+// Update may be applied to witnesses that are at different indices.
 func (update *Update) Product(from uint64) *big.Int {
-	if update.product != nil {
+	if update.product != nil && update.productFrom == from {
 		return update.product
 	}
 	update.product = big.NewInt(1)
+	update.productFrom = from
 	if len(update.Events) == 0 {
 		return update.product
 	}
@@ -344,6 +349,7 @@ func (update *Update) Prepend(eventlist *EventList) error {
 	n.Events = append(eventlist.Events, n.Events...)
 	if eventlist.product != nil {
 		n.product.Mul(n.product, eventlist.product)
+		n.productFrom = n.Events[0].Index
 	} else {
 		n.product = nil
 	}
